@@ -136,3 +136,24 @@ def bundle_literal_sibling_branches(repo: Repo, rep: Report, rule: str) -> None:
         rep.check(ok, rule, f"bundle literal check, {kind} members: tested against and recorded in the seen-map",
                   f"adds:{len(adds)} records:{len(recs)} tests:{len(tests)} errors:{len(errs)}" + ("" if ok else ": members contributed by this branch escape duplicate detection, so a later duplicate is accepted and the values are summed"), ib.loc(n))
     rep.floor(rule, "member-contributing branches", n_br, 2)
+
+
+def borrow(repo: Repo, rep: Report, from_prop: str, from_rule: str, new_rule: str, text: str, select=lambda o: True, floor: int = 1) -> None:
+    """Re-state obligations of a sibling property's rule under this property: the mechanism (one function, one table) underlies
+    both properties, so a defect in it breaks both.  The sibling's rule set is run on the same source model; nothing is cached."""
+    import importlib
+
+    rep.rule(new_rule, text + f" (the obligations of {from_rule}, which owns the mechanism)")
+    sub = Report(from_prop, "borrow")
+    importlib.import_module(f"fv.rules.{from_prop.lower()}").run(repo, sub, "quick")
+    n = 0
+    for o in sub.obs:
+        if o.rule == from_rule and select(o):
+            n += 1
+            if o.status == "ok":
+                rep.ok(new_rule, o.construct, o.detail, o.loc, o.nontrivial)
+            elif o.status == "violated":
+                rep.bad(new_rule, o.construct, o.detail, o.loc)
+            else:
+                rep.unknown(new_rule, o.construct, o.detail, o.loc)
+    rep.floor(new_rule, f"obligations taken from {from_rule}", n, floor)
